@@ -1311,19 +1311,19 @@ theorem sameNodes_dryRun {gv g : Graph} (h : SameNodes gv g) (n : Nat) : (gv.nod
 def exCross : Graph :=
   { workers := [{ id := "c1.net1", swarm := "c1" }, { id := "c2.net2", swarm := "c2" }],
     nodes := [
-      { cls := 0, owner := some 0, name := "all.p.vms.vm1.nets.c1.net1", pfx := "1a1", objs := ["vm1"],
+      { cls := 0, owner := some 0, name := "p.c1.net1", pfx := "1a1", objs := ["vm1"],
         sets := [("vm1", "p")], unsetMode := [("vm1", "fi")], setup := [(6, ["vm1"])], cleanup := [(2, ["vm1"]), (4, ["vm1"])] },
-      { cls := 0, owner := some 1, name := "all.p.vms.vm1.nets.c2.net2", pfx := "1a1", objs := ["vm1"],
+      { cls := 0, owner := some 1, name := "p.c2.net2", pfx := "1a1", objs := ["vm1"],
         sets := [("vm1", "p")], unsetMode := [("vm1", "fi")], setup := [(6, ["vm1"])], cleanup := [(3, ["vm1"]), (5, ["vm1"])] },
-      { cls := 1, owner := some 0, name := "all.c.vms.vm1.nets.c1.net1", pfx := "2a1", objs := ["vm1"],
+      { cls := 1, owner := some 0, name := "c.c1.net1", pfx := "2a1", objs := ["vm1"],
         gets := [("vm1", "p")], setup := [(0, ["vm1"])] },
-      { cls := 1, owner := some 1, name := "all.c.vms.vm1.nets.c2.net2", pfx := "2a1", objs := ["vm1"],
+      { cls := 1, owner := some 1, name := "c.c2.net2", pfx := "2a1", objs := ["vm1"],
         gets := [("vm1", "p")], setup := [(1, ["vm1"])] },
-      { cls := 2, owner := some 0, name := "all.d.vms.vm1.nets.c1.net1", pfx := "3a1", objs := ["vm1"], mct := some 2,
+      { cls := 2, owner := some 0, name := "d.c1.net1", pfx := "3a1", objs := ["vm1"], mct := some 2,
         gets := [("vm1", "p")], setup := [(0, ["vm1"])] },
-      { cls := 2, owner := some 1, name := "all.d.vms.vm1.nets.c2.net2", pfx := "3a1", objs := ["vm1"], mct := some 2,
+      { cls := 2, owner := some 1, name := "d.c2.net2", pfx := "3a1", objs := ["vm1"], mct := some 2,
         gets := [("vm1", "p")], setup := [(1, ["vm1"])] },
-      { cls := 3, owner := none, name := "all.internal.stateless.noop", pfx := "1", flat := true, sharedRoot := true,
+      { cls := 3, owner := none, name := "noop", pfx := "1", flat := true, sharedRoot := true,
         cleanup := [(0, ["vm1"]), (1, ["vm1"])] }],
     root := 6 }
 
@@ -1336,23 +1336,23 @@ and the plain setup `q`, nodes 4, 5; the composite of the flat test 8) expanded 
 def exLazyB : Graph :=
   { workers := [{ id := "net1", swarm := "localhost" }, { id := "net2", swarm := "localhost" }],
     nodes := [
-      { cls := 0, owner := some 0, name := "all.p.vms.vm1.nets.localhost.net1", pfx := "1a1", objs := ["vm1"],
+      { cls := 0, owner := some 0, name := "p.net1", pfx := "1a1", objs := ["vm1"],
         sets := [("vm1", "p")], unsetMode := [("vm1", "fi")], setup := [(6, ["vm1"]), (7, [])], cleanup := [(2, ["vm1"])] },
-      { cls := 0, owner := some 1, name := "all.p.vms.vm1.nets.localhost.net2", pfx := "1a1", objs := ["vm1"],
+      { cls := 0, owner := some 1, name := "p.net2", pfx := "1a1", objs := ["vm1"],
         sets := [("vm1", "p")], unsetMode := [("vm1", "fi")], setup := [(6, ["vm1"]), (7, [])], cleanup := [(3, ["vm1"])] },
-      { cls := 1, owner := some 0, name := "all.e.vms.vm1.nets.localhost.net1", pfx := "2a1", objs := ["vm1"],
+      { cls := 1, owner := some 0, name := "e.net1", pfx := "2a1", objs := ["vm1"],
         gets := [("vm1", "p")], setup := [(4, ["vm1"]), (0, ["vm1"]), (8, [])] },
-      { cls := 1, owner := some 1, name := "all.e.vms.vm1.nets.localhost.net2", pfx := "2a1", objs := ["vm1"],
+      { cls := 1, owner := some 1, name := "e.net2", pfx := "2a1", objs := ["vm1"],
         gets := [("vm1", "p")], setup := [(5, ["vm1"]), (1, ["vm1"]), (8, [])] },
-      { cls := 2, owner := some 0, name := "all.q.vms.vm1.nets.localhost.net1", pfx := "3a1", objs := ["vm1"],
+      { cls := 2, owner := some 0, name := "q.net1", pfx := "3a1", objs := ["vm1"],
         setup := [(6, ["vm1"])], cleanup := [(2, ["vm1"])] },
-      { cls := 2, owner := some 1, name := "all.q.vms.vm1.nets.localhost.net2", pfx := "3a1", objs := ["vm1"],
+      { cls := 2, owner := some 1, name := "q.net2", pfx := "3a1", objs := ["vm1"],
         setup := [(6, ["vm1"])], cleanup := [(3, ["vm1"])] },
-      { cls := 3, owner := none, name := "all.internal.stateless.noop", pfx := "1", flat := true, sharedRoot := true,
+      { cls := 3, owner := none, name := "noop", pfx := "1", flat := true, sharedRoot := true,
         cleanup := [(7, []), (8, []), (0, ["vm1"]), (1, ["vm1"]), (4, ["vm1"]), (5, ["vm1"])] },
-      { cls := 4, owner := none, name := "all.p.vms.vm1", pfx := "1a", flat := true, setless := "all.p.vms.vm1",
+      { cls := 4, owner := none, name := "p", pfx := "1a", flat := true, setless := "p",
         setup := [(6, [])], cleanup := [(0, []), (1, [])] },
-      { cls := 5, owner := none, name := "all.e.vms.vm1", pfx := "2a", flat := true, setless := "all.e.vms.vm1",
+      { cls := 5, owner := none, name := "e", pfx := "2a", flat := true, setless := "e",
         setup := [(6, [])], cleanup := [(2, []), (3, [])] }],
     root := 6 }
 
